@@ -47,6 +47,8 @@ def buildable(n, cnt):
 
 def judge_patches(R, P, case):
     """Invariant of a constructed Patches object."""
+    import darsia
+
     base = P.base
     H, W = base.img.shape[:2]
     n0, n1 = P.num_patches[0], P.num_patches[1]
@@ -58,6 +60,7 @@ def judge_patches(R, P, case):
     place_ok = True
     vs_ok = True
     adv_ok = True
+    lookup_ok, lookups = True, 0
     bcs = base.coordinatesystem
     meta = (2, (H, W), [float(x) for x in base.dimensions], [float(x) for x in np.asarray(base.origin)])
     scale = np.array([abs(meta[3][c]) + abs(meta[2][m]) for c, (m, s) in enumerate(CO.TABLE[2])])
@@ -94,9 +97,21 @@ def judge_patches(R, P, case):
             lc = np.asarray(P.local_corners_voxels[i, j])
             if not np.array_equal(lc, gc - gc[0]):
                 adv_ok = False
+            # ... also when looked up the way a user would: the sub-image of the base at the advertised corner voxels
+            if (i in (0, n0 - 1) or j in (0, n1 - 1)) and a1 > a0 and b1 > b0:
+                try:
+                    found = base.subregion(darsia.make_voxel(gc))
+                    if not (found.img.shape == base.img[box].shape and np.array_equal(found.img, base.img[box])):
+                        lookup_ok = False
+                except Exception:
+                    lookup_ok = False
+                lookups += 1
     R.check(bool(np.all(cover == 1)), "interiors_partition", lambda: {**case, "min": int(cover.min()), "max": int(cover.max())}, group=grp)
     R.check(sub_ok, "patch_is_advertised_subimage", {**case, "what": "patch != base[roi]"}, group=grp)
     R.check(adv_ok, "patch_is_advertised_subimage", {**case, "what": "interior != base[advertised voxel corners]"}, group=grp)
+    if lookups:
+        R.check(lookup_ok, "patch_is_advertised_subimage", {**case, "what": "interior != base.subregion(advertised corner voxels)"}, group=grp)
+        R.count("typed_corner_lookups", lookups)
     R.count("patch_is_advertised_subimage", n0 * n1 - 1)
     R.check(place_ok, "patch_placement", case, group=grp)
     R.check(vs_ok, "patch_voxel_size", case, group=grp)
